@@ -98,6 +98,41 @@ CHECKS["C06"] = dict(
     assumptions=["reference simplex is correct", "integer variables are boxed, so enumeration is complete"],
 )
 
+CHECKS["C07"] = dict(
+    title="PIP solution tree evaluates to the lexicographic minimum for every parameter assignment",
+    quick=T([("c07_pip", 1)], cases=6000, secs=70),
+    thorough=T([("c07_pip", 1)], cases=60000, secs=900, flavour="san"),
+    rule="case = PIP_Problem over 1-3 variables, 0-2 parameters, 0-5 constraints (=, >=, >; coefficients in [-4,4]), optional context rows, "
+         "optional big parameter, every CUTTING_STRATEGY x PIVOT_ROW_STRATEGY, followed by a history (solve; add constraints / dimensions / "
+         "parameters; copy, assign, swap; change of strategy; solve again); oracle: the tree is walked through the public interface at every "
+         "parameter assignment of a window (0..7 per parameter, big parameter 10^6 and 10^6+1) satisfying the context and compared with a "
+         "brute-force lexicographic minimum (plain integer arithmetic, no PPL); final tree compared with the tree of a fresh problem. "
+         "Non-trivial: at least one parameter or a re-solve after a modification, and a feasible assignment exists.",
+    technique="property-based testing (stateful histories, brute-force lexmin oracle evaluated per parameter assignment, differential against a fresh solve)",
+    level_text="Generated-history exploration with an exhaustive per-assignment oracle on a bounded parameter window.",
+    level_note="parameters are sampled in a bounded window; unbounded variables are judged one-sidedly inside a window; big parameter only in the documented x'=x+M form.",
+    design_ref="DESIGN.md 4 C07",
+    assumptions=["brute-force oracle window (variables 0..ub or a window of 0..10 around the tree's values) contains the lexicographic minimum when the rows bound the variables"],
+)
+
+CHECKS["C11"] = dict(
+    title="Checked arithmetic: result relation, rounding direction and special values are truthful",
+    quick=T([("c11_num", 1)], cases=100000, secs=70),
+    thorough=T([("c11_num", 1)], cases=1500000, secs=900, flavour="rel"),
+    rule="case = one checked operation (assign_r, construct, neg, abs, add, sub, mul, div, idiv, rem, sqrt, gcd, lcm, gcdext, add_mul, sub_mul, "
+         "*_2exp, floor/ceil/trunc, comparisons, sgn, is_integer, classify) on operands drawn from boundary-biased generators for every native "
+         "integer width, float, double, long double, mpz, mpq under the policies shipped with PPL (native, extended, bounded, WRD), every "
+         "rounding direction incl. STRICT_RELATION / NOT_NEEDED / IGNORE; 2% of the cases sweep an 8-bit type exhaustively; oracle: exact "
+         "rational/extended arithmetic in the harness (mpq, sqrt by integer bracketing): the stored value s and exact value e must satisfy "
+         "the returned Result relation, the rounding direction, the special-value class, and overflow codes must be justified. "
+         "Non-trivial: inexact or out-of-range exact result, a special operand, or a boundary operand.",
+    technique="property-based testing (exact rational reference model, exhaustive 8-bit sweeps, boundary-biased generators)",
+    level_text="Generated-input exploration against an exact-arithmetic model, with exhaustive sweeps of the 8-bit instantiations.",
+    level_note="ROUND_NOT_NEEDED exactness is not asserted for multi-step operations; smod_2exp with exp 0 and float *_2exp with exp >= 64 are treated as preconditions.",
+    design_ref="DESIGN.md 4 C11",
+    assumptions=["GMP mpq arithmetic is exact"],
+)
+
 CHECKS["C18"] = dict(
     title="Termination analysis returns only genuine ranking functions; methods agree",
     quick=T([("c18_termination", 1)], cases=60000, secs=50),
